@@ -643,7 +643,7 @@ func (r *run) quiesce() bool {
 			r.lastDetect = time.Now().Unix()
 			continue
 		}
-		if g != nil && len(g.chA) > 0 {
+		if g != nil && len(g.chA) > 0 && atomic.LoadInt32(&r.e.handover) == 0 {
 			if !r.deliver(gateWait) || !r.e.await(func() bool { return r.e.find("drv") != nil }, stuckWait) {
 				r.stuck = "delivered block did not reach the driver"
 				return false
@@ -701,7 +701,8 @@ func (r *run) quiesce() bool {
 		}
 		// (a block that was handed to the driver and is neither stored nor dropped by a rewind is still in its hands, however
 		// long its goroutine takes to reach the next gate on a loaded machine: that is not rest)
-		if dlRest && rdRest && r.e.find("drv") == nil && (g == nil || len(g.chA) == 0) && atomic.LoadInt32(&r.n.inflight) == 0 {
+		if dlRest && rdRest && r.e.find("drv") == nil && (g == nil || len(g.chA) == 0) && atomic.LoadInt32(&r.n.inflight) == 0 &&
+			atomic.LoadInt32(&r.e.handover) == 0 {
 			// a tracked block that is not canonical must lead to a notification; a detection that collides with an earlier
 			// one of the same second is retried by the detector on a later tick: give it that second
 			if r.staleTracked() {
@@ -726,7 +727,7 @@ func (r *run) quiesce() bool {
 		// somebody is on the way to a gate: wait for the arrival
 		if !r.e.await(func() bool {
 			return r.e.find("drv") != nil || (r.e.find("dl") != nil && dlPolls < 3) || (r.e.find("rd") != nil && rdTicks < 2) ||
-				(g != nil && len(g.chA) > 0)
+				(g != nil && len(g.chA) > 0 && atomic.LoadInt32(&r.e.handover) == 0)
 		}, stuckWait) {
 			r.stuck = "not at rest and nobody arrives: " + r.where()
 			return false
